@@ -14,13 +14,13 @@ open NaijaVerif NaijaVerif.Spec
 
 /-! ### The invariant -/
 
-structure BRel (env : Env) (te : TEnv) : Prop where
+structure BRelT (env : Env) (te : TEnv) : Prop where
   vars : ∀ x, tLookup te.vars x = (lookupScopes env.vars x).map (·.ty)
   fns : ∀ x, tLookup te.fns x = (lookupFns env.fns x).map (·.ret)
   sh : env.shadowRet = true
   fixed : env.recovery = false
 
-structure SRel (env : Env) (cur : Scope) (te : TEnv) (tcur : TScope) : Prop extends BRel env te where
+structure SRel (env : Env) (cur : Scope) (te : TEnv) (tcur : TScope) : Prop extends BRelT env te where
   cur : ∀ x, tFind tcur x = (findVar cur x).map (·.ty)
 
 theorem scopes_cons (cur : Scope) (ss : List Scope) (tcur : TScope) (ts : List TScope)
@@ -48,7 +48,7 @@ theorem SRel.rel {env : Env} {cur : Scope} {te : TEnv} {tcur : TScope} (h : SRel
 theorem SRel.nested {env : Env} {cur : Scope} {te : TEnv} {tcur : TScope} (h : SRel env cur te tcur) (env' : Env)
     (hv : env'.vars = cur :: env.vars) (hf : env'.fns = env.fns) (hs : env'.shadowRet = env.shadowRet)
     (hr : env'.recovery = env.recovery) :
-    BRel env' { te with vars := tcur :: te.vars } := by
+    BRelT env' { te with vars := tcur :: te.vars } := by
   constructor
   · intro x; rw [hv]; exact scopes_cons cur env.vars tcur te.vars h.cur h.vars x
   · intro x; rw [hf]; exact h.fns x
@@ -253,7 +253,7 @@ mutual
           refine ⟨by simpa using hL, fun hc => ?_⟩
           simp only [List.append_eq_nil_iff] at hc
           have hty := typeOf_eq hR.rel e
-          refine { toBRel := hR.toBRel, cur := fun y => ?_ }
+          refine { toBRelT := hR.toBRelT, cur := fun y => ?_ }
           rw [tFind_tDeclare, hty, findVar_updateTy_some _ _ _ _ (by simp [hfv])]
           split
           · rfl
@@ -262,7 +262,7 @@ mutual
           refine ⟨by simpa using hL, fun hc => ?_⟩
           simp only [List.append_eq_nil_iff] at hc
           have hty := typeOf_eq hR.rel e
-          refine { toBRel := hR.toBRel, cur := fun y => ?_ }
+          refine { toBRelT := hR.toBRelT, cur := fun y => ?_ }
           rw [tFind_tDeclare, hty, findVar_cons]
           simp only []
           cases x == y
@@ -377,7 +377,7 @@ mutual
           (checkStmt env cur s f).facts (hpost hclean) h2
         rw [hc] at this
         exact this
-  theorem checkBlock_lock (env : Env) (parent : Option Nat) (te : TEnv) (hB : BRel env te) :
+  theorem checkBlock_lock (env : Env) (parent : Option Nat) (te : TEnv) (hB : BRelT env te) :
       ∀ (b : Block) (f : Facts), Lock (checkBlock env parent b f).ds (blockT te b)
     | .mk ss sp, f => by
         simp only [checkBlock, blockT]
@@ -402,7 +402,7 @@ mutual
           have := findSig_blockFns_has ss [] name hn
           apply findFn_isSome_of_keys _ (blockFns ss []) _ name this
           rw [retIter_keys, predeclare_sigs]; rfl
-  theorem checkOptBlock_lock (env : Env) (parent : Option Nat) (te : TEnv) (hB : BRel env te) :
+  theorem checkOptBlock_lock (env : Env) (parent : Option Nat) (te : TEnv) (hB : BRelT env te) :
       ∀ (b : Option Block) (f : Facts), Lock (checkOptBlock env parent b f).ds (optBlockT te b)
     | none, f => by simp [checkOptBlock, optBlockT, Lock.nil]
     | some b, f => by
